@@ -194,6 +194,10 @@ end
 def decodeSrc (sd : SD) (src : Src) : Outcome (Val × Nat × SDec) :=
   if sd.descOk then decStruct sd.tag sd { s := Stack.top src, last := 0 } else .err .other
 
+/-- `NewDecoder(src).Decode(&v)` when `src` is an io.ByteScanner: no buffering of the Decoder's own, the source is read directly -/
+def decodeScanner (sd : SD) (src : Src) : Outcome (Val × Nat × SDec) :=
+  if sd.descOk then decStruct sd.tag sd { s := .src src, last := 0 } else .err .other
+
 /-- successive Decode calls on ONE Decoder (cf. KmipModel/Stream.lean) -/
 def decodeStream : List SD → SDec → List (Val × Nat) × Option ErrClass × SDec
   | [], d => ([], none, d)
